@@ -763,6 +763,20 @@ fn check_sem_case(ctx: &mut Ctx, w: &World, g: &Gen, q: &Q, text: &str) {
 fn lean_opd_tokens(rng: &mut Rng, depth: u32, out: &mut Vec<String>) {
     const VOC: &[&str] = &["a", "b", "abc", "x1", "ANDROID", "ORx", "NOTE", "INDIA", "IN2", "AN", "O", "NO", "42", "Zed", "andor"];
     const PHR: &[&str] = &["a b", "x", "", "it's", "a  b:c", "AND", "(x) +y", " b OR c ", "caf\u{e9} x", "a*", "t~2", "[a TO b]", "IN [a]"];
+    const BND: &[&str] = &["a", "b", "1", "42", "TO", "AND", "zed", "2024", "x1"];
+    if rng.chance(1, 7) {
+        if rng.chance(1, 2) {
+            out.push("r".into());
+        } else {
+            out.push("fr".into());
+            out.push(crate::model::hex(rng.pick(&["title", "body", "t", "n"]).as_bytes()));
+        }
+        out.push(rng.below(2).to_string());
+        out.push(rng.below(2).to_string());
+        out.push(crate::model::hex(rng.pick(BND).as_bytes()));
+        out.push(crate::model::hex(rng.pick(BND).as_bytes()));
+        return;
+    }
     const SFX: &[&str] = &["*", "s0", "s1", "s2", "s10", "s007", "s4294967295", "-"];
     if rng.chance(1, 6) {
         if rng.chance(1, 2) {
